@@ -25,6 +25,8 @@ type c02Cfg struct {
 	Threshold int64  `json:"threshold"`
 	Via       string `json:"via"` // direct | group
 	Key       string `json:"key"` // group key
+	// options NOT passed to the constructor (the case then carries the default value of that setting)
+	Omit []string `json:"omit"`
 }
 
 // One case = one process-wide scenario on a virtual clock: shedders are built ("new") at chosen
@@ -85,7 +87,25 @@ func c02Dyadic(v float64) (int64, int) {
 }
 
 func c02Opts(c c02Cfg) []ShedderOption {
-	return []ShedderOption{WithWindow(time.Duration(c.Window)), WithBuckets(c.Buckets), WithCpuThreshold(c.Threshold)}
+	omit := map[string]bool{}
+	for _, o := range c.Omit {
+		omit[o] = true
+	}
+	var opts []ShedderOption
+	// the order of the options is irrelevant to the constructor; vary it with the configuration
+	if !omit["threshold"] && c.Buckets%2 == 1 {
+		opts = append(opts, WithCpuThreshold(c.Threshold))
+	}
+	if !omit["window"] {
+		opts = append(opts, WithWindow(time.Duration(c.Window)))
+	}
+	if !omit["buckets"] {
+		opts = append(opts, WithBuckets(c.Buckets))
+	}
+	if !omit["threshold"] && c.Buckets%2 == 0 {
+		opts = append(opts, WithCpuThreshold(c.Threshold))
+	}
+	return opts
 }
 
 // runs one scenario; stable=false when the CPU gauge was changed behind our back
